@@ -1,6 +1,207 @@
-(* C08 - key search and sub-key filters.  Statements only. *)
-From Mxj Require Import Model.TreeOps Proofs.C07P Proofs.KVTotal.
+(* C08 - key search and sub-key filters.  Statements only; proofs in Proofs/C08P.v,
+   specification vocabulary in Spec/SubKeys.v and Spec/KeySearch.v. *)
+From Coq Require Import Permutation.
+From Mxj Require Import Model.TreeOps Spec.PathSem Spec.SubKeys Spec.KeySearch
+  Proofs.C07P Proofs.KVTotal Proofs.C08P.
 
 Theorem C08_values_for_key_no_panic : forall pf sep m k sk, values_for_key pf sep m k sk <> Panic.
 Proof. exact values_for_key_no_panic. Qed.
 Print Assumptions C08_values_for_key_no_panic.
+
+(* ---- 1. sub-keys only filter: ValuesForKey ---- *)
+(* the walker, for every sub-key map *)
+Theorem C08_has_key_walk_filter : forall m k sk,
+  has_key_walk m k sk = filter (fun v => has_sub_keys v sk) (has_key_walk m k []).
+Proof. exact has_key_walk_filter. Qed.
+Print Assumptions C08_has_key_walk_filter.
+
+(* the exported function, from the sub-key strings *)
+Theorem C08_values_for_key_filter : forall pf sep m k sks sk,
+  get_sub_key_map pf sep sks = Ok sk ->
+  values_for_key pf sep m k sks =
+  match values_for_key pf sep m k [] with
+  | Ok vs => Ok (filter (fun v => has_sub_keys v sk) vs)
+  | Err e => Err e
+  | Panic => Panic
+  end.
+Proof. exact values_for_key_filter. Qed.
+Print Assumptions C08_values_for_key_filter.
+
+(* ---- 2. sub-keys only filter: ValuesForPath ---- *)
+Theorem C08_vfkp_filter : forall ks sk m,
+  vfkp ks sk m = filter (fun v => has_sub_keys v sk) (vfkp ks [] m).
+Proof. exact vfkp_filter. Qed.
+Print Assumptions C08_vfkp_filter.
+
+(* every path string, with or without '[' *)
+Theorem C08_values_for_path_filter : forall pf sep m path sks sk,
+  get_sub_key_map pf sep sks = Ok sk ->
+  values_for_path pf sep m path sks =
+  match values_for_path pf sep m path [] with
+  | Ok vs => Ok (filter (fun v => has_sub_keys v sk) vs)
+  | Err e => Err e
+  | Panic => Panic
+  end.
+Proof. exact values_for_path_filter. Qed.
+Print Assumptions C08_values_for_path_filter.
+
+(* malformed sub-key strings are reported as an error, whatever the Map, key or path *)
+Theorem C08_values_for_key_bad_subkeys : forall pf sep m k sks e,
+  get_sub_key_map pf sep sks = Err e -> values_for_key pf sep m k sks = Err e.
+Proof. exact values_for_key_bad_subkeys. Qed.
+Print Assumptions C08_values_for_key_bad_subkeys.
+
+Theorem C08_values_for_path_bad_subkeys : forall pf sep m path sks e,
+  get_sub_key_map pf sep sks = Err e -> values_for_path pf sep m path sks = Err e.
+Proof. exact values_for_path_bad_subkeys. Qed.
+Print Assumptions C08_values_for_path_bad_subkeys.
+
+(* ---- 3. hasSubKeys is the declarative predicate sat_all ---- *)
+Theorem C08_has_sub_keys_sat_all : forall v sk, has_sub_keys v sk = sat_all (conds_of sk) v.
+Proof. exact has_sub_keys_sat_all. Qed.
+Print Assumptions C08_has_sub_keys_sat_all.
+
+(* ---- 4. PathsForKey returns exactly the existing key paths ending in the key, each once ---- *)
+Theorem C08_paths_for_key_exact : forall m k p,
+  In p (paths_for_key m k) <->
+  exists ks, ks <> [] /\ p = trail ks /\ last ks [] = k /\ path_exists ks m.
+Proof. exact paths_for_key_exact. Qed.
+Print Assumptions C08_paths_for_key_exact.
+
+Theorem C08_paths_for_key_nodup : forall m k, NoDup (paths_for_key m k).
+Proof. exact paths_for_key_nodup. Qed.
+Print Assumptions C08_paths_for_key_nodup.
+
+(* [trail] is the "."-join unless the key list starts with an empty key *)
+Theorem C08_trail_join : forall ks, hd [] ks <> [] -> trail ks = join sdot ks.
+Proof. exact trail_join. Qed.
+Print Assumptions C08_trail_join.
+
+(* a Map whose top-level keys are not empty: paths are the joined key lists *)
+Theorem C08_paths_for_key_exact_join : forall vv k p,
+  Forall (fun kv => fst kv <> []) vv ->
+  (In p (paths_for_key (VMap vv) k) <->
+   exists ks, ks <> [] /\ p = join sdot ks /\ last ks [] = k /\ path_exists ks (VMap vv)).
+Proof. exact paths_for_key_exact_join. Qed.
+Print Assumptions C08_paths_for_key_exact_join.
+
+(* the side condition is needed: with an empty top-level key the separator is lost,
+   and the reported path does not lead back to the value *)
+Theorem C08_paths_for_key_join_refuted :
+  exists vv k p,
+    In p (paths_for_key (VMap vv) k) /\
+    ~ (exists ks, ks <> [] /\ p = join sdot ks /\ last ks [] = k /\ path_exists ks (VMap vv)) /\
+    values_for_path (fun _ => None) (s ":") (VMap vv) p [] = Ok [].
+Proof. exact paths_for_key_join_refuted. Qed.
+Print Assumptions C08_paths_for_key_join_refuted.
+
+(* the inductive [path_exists] and the computable [path_existsb] agree *)
+Theorem C08_path_existsb_spec : forall ks v, path_existsb ks v = true <-> path_exists ks v.
+Proof. exact path_existsb_spec. Qed.
+Print Assumptions C08_path_existsb_spec.
+
+(* ---- 5. PathForKeyShortest: a member of the paths with the fewest segments ---- *)
+Theorem C08_shortest_minimal : forall ps,
+  ps <> [] ->
+  In (shortest ps) ps /\ forall p, In p ps -> path_len (shortest ps) <= path_len p.
+Proof. exact shortest_minimal. Qed.
+Print Assumptions C08_shortest_minimal.
+
+Theorem C08_shortest_for_key : forall m k,
+  paths_for_key m k <> [] ->
+  In (shortest (paths_for_key m k)) (paths_for_key m k) /\
+  forall p, In p (paths_for_key m k) -> path_len (shortest (paths_for_key m k)) <= path_len p.
+Proof. intros m k. exact (shortest_minimal (paths_for_key m k)). Qed.
+Print Assumptions C08_shortest_for_key.
+
+Theorem C08_shortest_none : shortest [] = [].
+Proof. exact shortest_nil. Qed.
+
+(* ---- 6. ValuesForKey returns exactly the values stored under the key ---- *)
+Theorem C08_has_key_walk_stored : forall m k,
+  (k = star -> key_free star m = true) ->
+  has_key_walk m k [] = stored_under k m.
+Proof. exact has_key_walk_stored. Qed.
+Print Assumptions C08_has_key_walk_stored.
+
+(* in general, under "*", the values stored under a literal "*" key come twice *)
+Theorem C08_has_key_walk_star : forall m,
+  Permutation (has_key_walk m star []) (stored_literal star m ++ stored_under star m).
+Proof. exact has_key_walk_star. Qed.
+Print Assumptions C08_has_key_walk_star.
+
+Theorem C08_has_key_walk_star_literal_twice :
+  exists m, has_key_walk m star [] <> stored_under star m /\
+            has_key_walk m star [] = stored_under star m ++ stored_under star m.
+Proof. exact has_key_walk_star_literal_twice. Qed.
+Print Assumptions C08_has_key_walk_star_literal_twice.
+
+(* ---- non-vacuity ---- *)
+Local Open Scope string_scope.
+Definition bk (a t : string) (seq : bool) : value :=
+  VMap ([(s"author", VStr (s a)); (s"title", VStr (s t))] ++ if seq then [(s"-seq", VStr (s"1"))] else []).
+Definition ex8 : value :=
+  VMap [(s"doc", VMap [(s"books", VList [bk "A" "T1" true; bk "B" "T2" false; bk "A" "T3" false]);
+                       (s"shelf", VMap [(s"books", bk "C" "T4" false); (s"n", VInt 1)])])].
+Definition nopf : str -> option flt := fun _ => None.
+
+(* 1: a sub-key keeps two of the four books found under "books" *)
+Example C08_ex_key_filter :
+  values_for_key nopf (s":") ex8 (s"books") [] =
+    Ok [bk "A" "T1" true; bk "B" "T2" false; bk "A" "T3" false; bk "C" "T4" false] /\
+  get_sub_key_map nopf (s":") [s"author:A"] = Ok [(s"author", VStr (s"A"))] /\
+  values_for_key nopf (s":") ex8 (s"books") [s"author:A"] = Ok [bk "A" "T1" true; bk "A" "T3" false].
+Proof. vm_compute. repeat split. Qed.
+
+(* 2: plain, wildcard and indexed paths; negated and wildcard conditions *)
+Example C08_ex_path_filter :
+  values_for_path nopf (s":") ex8 (s"doc.books") [s"!author:A"] = Ok [bk "B" "T2" false] /\
+  values_for_path nopf (s":") ex8 (s"doc.*.books") [s"-seq:*"] = Ok [] /\
+  values_for_path nopf (s":") ex8 (s"doc.books") [s"-seq:*"] = Ok [bk "A" "T1" true] /\
+  values_for_path nopf (s":") ex8 (s"doc.books") [s"!-seq:*"; s"author:A"] = Ok [bk "A" "T3" false] /\
+  values_for_path nopf (s":") ex8 (s"doc.books[2]") [s"author:A"] = Ok [bk "A" "T3" false] /\
+  values_for_path nopf (s":") ex8 (s"doc.books[1]") [s"author:A"] = Ok [] /\
+  values_for_path nopf (s":") ex8 (s"doc.books") [s"author"] = Err EOther.
+Proof. vm_compute. repeat split. Qed.
+
+(* 3: the conditions read off a sub-key map, and their verdicts *)
+Example C08_ex_conds :
+  get_sub_key_map nopf (s":") [s"!author:B"; s"-seq:*"; s"ok:true:bool"] =
+    Ok [(s"!author", VStr (s"B")); (s"-seq", VStr (s"*")); (s"ok", VBool true)] /\
+  conds_of [(s"!author", VStr (s"B")); (s"-seq", VStr (s"*")); (s"ok", VBool true)] =
+    [ {| c_neg := true; c_key := s"author"; c_val := VStr (s"B") |};
+      {| c_neg := false; c_key := s"-seq"; c_val := VStr (s"*") |};
+      {| c_neg := false; c_key := s"ok"; c_val := VBool true |} ] /\
+  sat_all (conds_of [(s"!author", VStr (s"B")); (s"-seq", VStr (s"*"))]) (bk "A" "T1" true) = true /\
+  sat_all (conds_of [(s"!author", VStr (s"B")); (s"-seq", VStr (s"*"))]) (bk "B" "T2" true) = false /\
+  sat_all (conds_of [(s"!author", VStr (s"B")); (s"-seq", VStr (s"*"))]) (bk "A" "T1" false) = false /\
+  sat_all (conds_of [(s"ok", VBool true)]) (VMap [(s"ok", VStr (s"true"))]) = false /\
+  sat_all (conds_of [(s"ok", VBool true)]) (VMap [(s"ok", VBool true)]) = true /\
+  sat_all (conds_of [(s"!zz", VStr (s"*"))]) (bk "A" "T1" false) = true /\
+  sat_all (conds_of [(s"author", VStr (s"A"))]) (VStr (s"A")) = false.
+Proof. vm_compute. repeat split. Qed.
+
+(* 4: two distinct paths although "books" is reached through three list members *)
+Example C08_ex_paths :
+  paths_for_key ex8 (s"title") = [s"doc.books.title"; s"doc.shelf.books.title"] /\
+  path_existsb [s"doc"; s"books"; s"title"] ex8 = true /\
+  path_existsb [s"doc"; s"title"] ex8 = false /\
+  Forall (fun kv => fst kv <> []) [(s"doc", VNil)].
+Proof.
+  split; [vm_compute; reflexivity|]. split; [vm_compute; reflexivity|].
+  split; [vm_compute; reflexivity|]. repeat constructor; discriminate.
+Qed.
+
+(* 5 *)
+Example C08_ex_shortest :
+  paths_for_key ex8 (s"books") = [s"doc.books"; s"doc.shelf.books"] /\
+  shortest (paths_for_key ex8 (s"books")) = s"doc.books" /\
+  shortest [s"a.b.c"; s"x.y"; s"p.q"; s"a.b.c.d"] = s"x.y".
+Proof. vm_compute. repeat split. Qed.
+
+(* 6 *)
+Example C08_ex_stored :
+  key_free star ex8 = true /\
+  stored_under (s"author") ex8 = [VStr (s"A"); VStr (s"B"); VStr (s"A"); VStr (s"C")] /\
+  length (stored_under star ex8) = 16.
+Proof. vm_compute. repeat split. Qed.
